@@ -88,6 +88,7 @@ type Result struct {
 	Deadlock  bool
 	CPUSpin   bool
 	MemBlowup bool
+	Stuck     bool
 	Dump      string
 	SyncErr   bool
 	Waits     []Snap
@@ -129,6 +130,7 @@ type Session struct {
 	abort       string
 	syncErr     bool
 	progress    int
+	inRead      bool
 }
 
 type gateAbort struct{ why string }
@@ -316,8 +318,12 @@ func (s *Session) gateRead(inner io.ReadCloser, p []byte) (int, error) {
 			s.T.M.Write([]byte(st.W))
 		}
 	}
+	s.mu.Lock()
+	s.inRead = true
+	s.mu.Unlock()
 	n, err := inner.Read(p)
 	s.mu.Lock()
+	s.inRead = false
 	s.progress++
 	s.mu.Unlock()
 	if n > 0 {
@@ -491,6 +497,15 @@ loop:
 					res.Hung, res.Deadlock, res.Dump = true, true, d2
 					break loop
 				}
+				// stuck keystroke: bytes were sent for this wait, the terminal queue is empty
+				// (somebody else read them) and the Readline goroutine is parked in the read
+				s.mu.Lock()
+				stuck := s.inRead && s.outstanding > 0 && s.T.Pending() == 0 && s.fault == nil
+				s.mu.Unlock()
+				if stuck {
+					res.Hung, res.Stuck, res.Dump = true, true, d2
+					break loop
+				}
 				lastProgAt = time.Now()
 			}
 			if time.Since(start) > SessionWall {
@@ -599,6 +614,12 @@ func classifyDeadlock(d1, d2 string) bool {
 	s2, f2 := h(g2)
 	if s1 != s2 || f1 != f2 {
 		return false
+	}
+	// blocked in the direct terminal read of a cursor-position query: the emulator answers every
+	// query (at once, or within the 250 ms release of a held answer), so two identical dumps
+	// seconds later mean the answer was consumed by somebody else
+	if (s1 == "IO wait" || s1 == "syscall") && strings.Contains(f1, "core.(*Keys).GetCursorPos") {
+		return true
 	}
 	switch s1 {
 	case "chan receive", "chan send", "select", "sync.Mutex.Lock", "sync.RWMutex.Lock", "sync.RWMutex.RLock", "semacquire", "sync.Cond.Wait", "chan receive (nil chan)", "chan send (nil chan)", "select (no cases)":
